@@ -475,10 +475,13 @@ Clauses(r) ==
        [] m = "residuals"     -> {"resid_length", "resid_chrom_median"}
        [] m = "expect_flat"   -> {"flat_doc"}
        [] OTHER               -> {})
-    \cup (IF m \in Mutators /\ r.copies # {} THEN {"copy_independent"} ELSE {})
+    \cup (IF r.ev.recv # "" /\ r.copies # {} THEN {"copy_independent"} ELSE {})
 
 GivenDs(r) == DS(r.w, IF r.ev.m \in {"new_rows", "new_cols"} THEN r.ev.p[2] ELSE r.ev.p[1])
-PlainDs(d) == ~HasCol(d.cols, "chromosome") \/ \A k \in Idx(d.rows) : d.rows[k][ColPos(d.cols, "chromosome")] > 0
+(* a dataset passed as it is written: str chromosome names, integer coordinates (flav "fc"/"sc" pass the       *)
+(* coordinates as floats / digit strings, negative ids pass chromosome names as Python ints: A-layer only)     *)
+PlainDs(d) == /\ d.flav = "plain"
+              /\ ~HasCol(d.cols, "chromosome") \/ \A k \in Idx(d.rows) : d.rows[k][ColPos(d.cols, "chromosome")] > 0
 TableIs(o, cols, rows) ==       \* the object holds exactly this table (column order free)
     /\ Range(o.cols) = Range(cols) /\ Len(o.cols) = Len(cols) /\ Len(o.rows) = Len(rows)
     /\ \A c \in Range(cols) : Col(o, c) = [k \in Idx(rows) |-> rows[k][ColPos(cols, c)]]
@@ -538,9 +541,15 @@ Holds(c, r) ==
               [] OTHER -> Ok(r) /\ N(o2) = n /\ HasCol(o2.cols, cs[1]) /\ \A k \in 1..n : Bit(p[1], k) => Cell(o2, k, cs[1]) = p[2]
       [] c = "autosomes_integer_names" ->
             (* autosomes: "Select chromosomes w/ integer names, ignoring any 'chr' prefixes." *)
-            LET o == Recv(r)  auto(k) == IsAutoCell(r.w, Cell(o, k, "chromosome")) IN
-            (p[1] = 0 /\ \E k \in Idx(o.rows) : auto(k)) =>
-                Ok(r) /\ TableIs(Res(r), o.cols, Sel(o, Where(N(o), auto)).rows)
+            (* (a name like "CHR3" is an integer name only if the prefix is ignored case-insensitively: the      *)
+            (* docstring leaves that open, so such rows may be selected or not)                                 *)
+            LET o == Recv(r)
+                auto(k) == IsAutoCell(r.w, Cell(o, k, "chromosome"))
+                maybe(k) == ~auto(k) /\ PlainInt(ChromName(r, o, k))
+            IN (p[1] = 0 /\ \E k \in Idx(o.rows) : auto(k)) =>
+                /\ Ok(r)
+                /\ \E K \in SUBSET {k \in Idx(o.rows) : maybe(k)} :
+                       TableIs(Res(r), o.cols, Sel(o, Where(N(o), LAMBDA k : auto(k) \/ k \in K)).rows)
       [] c = "bychrom_partition" ->
             (* by_chromosome: "Iterate over bins grouped by chromosome name." -- one group per name, holding exactly *)
             (* the rows of that name, in their order; every row is in its name's group                              *)
@@ -594,7 +603,7 @@ Holds(c, r) ==
             /\ Ok(r) /\ Res(r).cls = Recv(r).cls /\ Res(r).cols = Recv(r).cols /\ Res(r).rows = Recv(r).rows
             /\ MetaKeys(Res(r)) = MetaKeys(Recv(r)) /\ ~ev.alias
       [] c = "copy_independent" ->
-            (* copy: "independent": changing one of the two in place never changes the other *)
+            (* copy: "independent": no call on one of the two ever changes the other *)
             \A pr \in r.copies :
                 /\ (r.al[pr[1]] = r.al[ev.recv] /\ r.al[pr[2]] # r.al[ev.recv]) => r.post[pr[2]] = r.pre[pr[2]]
                 /\ (r.al[pr[2]] = r.al[ev.recv] /\ r.al[pr[1]] # r.al[ev.recv]) => r.post[pr[1]] = r.pre[pr[1]]
@@ -687,8 +696,10 @@ Holds(c, r) ==
             /\ Ok(r) /\ Len(ev.ret.v) = N(o)
             /\ \A k \in Idx(o.rows) :
                  /\ IsAutoCell(r.w, Cell(o, k, "chromosome")) => ev.ret.v[k] = 0
-                 /\ (N(o) > 0 /\ ChromName(r, o, k) = (IF FirstIsChr(r.w, o) THEN txt_chrY ELSE txt_Y)) => ev.ret.v[k] = -8
-                 /\ (N(o) > 0 /\ ChromName(r, o, k) = (IF FirstIsChr(r.w, o) THEN txt_chrX ELSE txt_X)) =>
+                 (* male reference: X and Y are single-copy (log2 = -1); female reference: X is two copies (0);  *)
+                 (* what Y gets under a female reference is not documented (A-layer)                            *)
+                 /\ (p[1] = 1 /\ ChromName(r, o, k) = (IF FirstIsChr(r.w, o) THEN txt_chrY ELSE txt_Y)) => ev.ret.v[k] = -8
+                 /\ ChromName(r, o, k) = (IF FirstIsChr(r.w, o) THEN txt_chrX ELSE txt_X) =>
                         ev.ret.v[k] = (IF p[1] = 1 THEN -8 ELSE 0)
 
 (* ---- premises ------------------------------------------------------------------------------------ *)
